@@ -50,11 +50,15 @@ def c01(res):
     if not q:
         res.models.append(model_check("Alloc", "Alloc_N4_thorough.cfg", wd, workers=8, timeout=3000))
     res.models.append(model_check("Lru", "Lru.cfg", wd, workers=4))
+    # S + R: SsaTape::new (Context DAG -> SSA tape); every DAG of the bound is also built through the real Context
+    res.models.append(model_check("Flatten", "Flatten_mc.cfg" if q else "Flatten_thorough.cfg", wd, workers=8, timeout=3000))
+    dags = os.path.join(wd, "dags.out")
+    res.gens.append(generate("Flatten", "FlattenGen.cfg" if q else "FlattenGen_thorough.cfg", wd, dags, workers=4, timeout=3000))
     # R: programs of the same model, emitted as JSON
     progs = os.path.join(wd, "progs.out")
     res.gens.append(generate("Alloc", "AllocGen_quick.cfg" if q else "AllocGen_thorough.cfg", wd, progs))
     trace = os.path.join(wd, "trace.ndjson")
-    rc, text = record("c01", [progs, res.tier, trace], wd, env={"VERIF_SEED": str(res.seed)})
+    rc, text = record("c01", [progs, res.tier, trace, dags], wd, env={"VERIF_SEED": str(res.seed)})
     if rc != 0:
         crash_violation(res, "c01", rc, text, progs)
         return res.finish("recorder crashed")
@@ -68,8 +72,9 @@ def c01(res):
     res.assumptions = ["value agreement is judged on the sampled inputs only",
                        "evaluations where a NaN reaches rand/mix are tainted and only counted"]
     return res.finish("TLC enumerates every SSA program shape within the bound (Alloc.tla) and the harness instantiates "
-                      "each with concrete opcodes at several register budgets, plus seeded long programs and random "
-                      "Context DAGs; a case = (program, budget); distinct by construction of the generator", exhaustive=False)
+                      "each with concrete opcodes at several register budgets, plus seeded long programs (incl. same-operand ops under "
+                      "register pressure), random Context DAGs, and every DAG of the Flatten.tla bound built through the real Context "
+                      "(recorded SSA tape = the tape the model of SsaTape::new predicts); a case = (program, budget)", exhaustive=False)
 
 
 # --------------------------------------------------------------------------------------------
